@@ -2,6 +2,7 @@ package main
 
 import (
 	"fmt"
+	"go/token"
 	"go/types"
 	"sort"
 	"strings"
@@ -29,77 +30,222 @@ func addends(t *term) map[string]int64 {
 	return out
 }
 
-// getterShape analyses a "found iff GetID != -1" accessor: returns the GetID
-// call, the condition term, the not-found return and the found return.
+// getterShape describes a "found iff id != -1" accessor, possibly delegating
+// to a helper with the same shape.
 type getterShape struct {
-	idCall   *ssa.Call
-	cond     string
-	notFound *ssa.Return
-	found    *ssa.Return
+	idCall   *ssa.Call     // the id lookup on the key (in f or in the helper it delegates to)
+	idFn     *ssa.Function
+	cond     string        // normalised not-found condition on the id
+	notFound *ssa.Return   // in f
+	found    *ssa.Return   // in f
+	value    *term         // found value of f in terms of trie data and the id
+	ordCall  *ssa.Call     // the call that turns the id into a leaf ordinal
+	ordFn    *ssa.Function // function containing ordCall
+	env      *evaluator
+	helper   *ssa.Function
 	why      string
 }
 
-func analyseGetter(p *Program, f *ssa.Function, getID *ssa.Function) getterShape {
-	var gs getterShape
-	var keyParam *ssa.Parameter
+func keyParamOf(f *ssa.Function) *ssa.Parameter {
 	for _, prm := range f.Params {
 		if isStringType(prm.Type()) {
-			keyParam = prm
+			return prm
 		}
 	}
+	return nil
+}
+
+// analyseGetter analyses f; env binds f's parameters when f is a helper called from a getter.
+func analyseGetter(p *Program, f *ssa.Function, getID *ssa.Function) getterShape {
+	return analyseGetterRec(p, f, getID, nil, 0)
+}
+
+func analyseGetterRec(p *Program, f *ssa.Function, getID *ssa.Function, bind map[ssa.Value]*term, depth int) getterShape {
+	var gs getterShape
+	keyParam := keyParamOf(f)
 	if keyParam == nil {
 		gs.why = "no key parameter"
 		return gs
 	}
+	e := newEval(p)
+	for k, v := range bind {
+		e.env[k] = v
+	}
+	gs.env = e
+	rets := returnsOf(f)
+	// direct form: id := idFn(st, key); if id == -1 { return zero, false }; return V, true
 	for _, c := range callsIn(f) {
 		if call, ok := c.(*ssa.Call); ok && calleeOf(call) == getID {
 			if len(call.Call.Args) == 2 && call.Call.Args[1] == keyParam {
 				gs.idCall = call
+				gs.idFn = getID
 			}
 		}
 	}
-	if gs.idCall == nil {
-		gs.why = "does not call GetID with its key parameter"
-		return gs
-	}
-	// the If on GetID == -1 in the entry block
-	iff, ok := lastInstr(gs.idCall.Block()).(*ssa.If)
-	if !ok {
-		gs.why = "the GetID result does not control the first branch"
-		return gs
-	}
-	e := newEval(p)
-	gs.cond = e.eval(iff.Cond).String()
-	idTerm := e.eval(gs.idCall).String()
-	nfSucc := -1
-	switch gs.cond {
-	case "cmp:==(" + idTerm + ",-1)":
-		nfSucc = 0
-	case "cmp:!=(" + idTerm + ",-1)":
-		nfSucc = 1
-	default:
-		gs.why = "the first branch does not test GetID(key) == -1 (condition " + gs.cond + ")"
-		return gs
-	}
-	nf, okNF := lastInstr(iff.Block().Succs[nfSucc]).(*ssa.Return)
-	if !okNF {
-		gs.why = "the not-found branch does not return at once"
-		return gs
-	}
-	gs.notFound = nf
-	// every other return is a found return
-	for _, r := range returnsOf(f) {
-		if r != nf {
-			if gs.found != nil {
-				gs.why = "more than one found return"
-				return gs
-			}
-			gs.found = r
+	if gs.idCall != nil {
+		iff, ok := lastInstr(gs.idCall.Block()).(*ssa.If)
+		if !ok {
+			gs.why = "the id does not control the first branch"
+			return gs
 		}
+		plain := newEval(p)
+		gs.cond = plain.eval(iff.Cond).String()
+		idTerm := plain.eval(gs.idCall).String()
+		nfSucc := -1
+		switch gs.cond {
+		case "cmp:==(" + idTerm + ",-1)":
+			nfSucc = 0
+		case "cmp:!=(" + idTerm + ",-1)":
+			nfSucc = 1
+			gs.cond = "cmp:==(" + idTerm + ",-1)"
+		default:
+			gs.why = "the first branch does not test id == -1 (condition " + gs.cond + ")"
+			return gs
+		}
+		// normalise the key symbol so that conditions of different functions compare
+		gs.cond = strings.ReplaceAll(gs.cond, ","+keyParam.Name()+")", ",KEY)")
+		nf, okNF := lastInstr(iff.Block().Succs[nfSucc]).(*ssa.Return)
+		if !okNF {
+			gs.why = "the not-found branch does not return at once"
+			return gs
+		}
+		gs.notFound = nf
+		for _, r := range rets {
+			if r != nf {
+				if gs.found != nil {
+					gs.why = "more than one found return"
+					return gs
+				}
+				gs.found = r
+			}
+		}
+		if gs.found == nil {
+			gs.why = "no found return"
+			return gs
+		}
+		// ordinal call: a trie call (not the id lookup) taking the id
+		for _, c := range callsIn(f) {
+			if call, ok := c.(*ssa.Call); ok && call != gs.idCall && calleeOf(call) != nil && trieScope(calleeOf(call)) {
+				for _, a := range call.Call.Args {
+					if a == gs.idCall {
+						gs.ordCall = call
+						gs.ordFn = f
+					}
+				}
+			}
+		}
+		if len(gs.found.Results) >= 1 {
+			gs.value = e.eval(gs.found.Results[0])
+		}
+		return gs
 	}
-	if gs.found == nil {
-		gs.why = "no found return"
+	// delegating form: v, ok := helper(st, key, ...); if !ok { return zero, false }; return decode(v), true
+	if depth >= 2 {
+		gs.why = "does not look the key up with " + shortFn(getID)
+		return gs
 	}
+	for _, c := range callsIn(f) {
+		call, ok := c.(*ssa.Call)
+		if !ok {
+			continue
+		}
+		h := calleeOf(call)
+		if h == nil || !trieScope(h) || len(h.Blocks) == 0 || h == f {
+			continue
+		}
+		passesKey := false
+		for _, a := range call.Call.Args {
+			if a == keyParam {
+				passesKey = true
+			}
+		}
+		if !passesKey || h.Signature.Results().Len() != 2 || !isBoolType(h.Signature.Results().At(1).Type()) {
+			continue
+		}
+		hb := map[ssa.Value]*term{}
+		for i, prm := range h.Params {
+			if i < len(call.Call.Args) {
+				a := call.Call.Args[i]
+				if _, isBasic := a.Type().Underlying().(*types.Basic); isBasic && !isStringType(a.Type()) {
+					hb[prm] = e.eval(a)
+				}
+			}
+		}
+		hs := analyseGetterRec(p, h, getID, hb, depth+1)
+		if hs.why != "" {
+			gs.why = "delegates to " + shortFn(h) + ", which " + hs.why
+			return gs
+		}
+		plain := newEval(p)
+		if len(hs.notFound.Results) != 2 || plain.eval(hs.notFound.Results[1]).String() != "false" || plain.eval(hs.found.Results[1]).String() != "true" {
+			gs.why = "delegates to " + shortFn(h) + ", whose flag is not the constant false/true on the two branches of the id test"
+			return gs
+		}
+		var v0, v1 ssa.Value
+		for _, ref := range *call.Referrers() {
+			if ex, ok := ref.(*ssa.Extract); ok {
+				if ex.Index == 0 {
+					v0 = ex
+				} else {
+					v1 = ex
+				}
+			}
+		}
+		iff, ok := lastInstr(call.Block()).(*ssa.If)
+		if !ok || v1 == nil {
+			gs.why = "the helper's flag does not control the first branch"
+			return gs
+		}
+		nfSucc := -1
+		cond := iff.Cond
+		neg := false
+		for {
+			if u, ok := cond.(*ssa.UnOp); ok && u.Op == token.NOT {
+				neg = !neg
+				cond = u.X
+				continue
+			}
+			break
+		}
+		if cond == v1 {
+			nfSucc = 1
+			if neg {
+				nfSucc = 0
+			}
+		}
+		if nfSucc < 0 {
+			gs.why = "the first branch does not test the helper's found flag"
+			return gs
+		}
+		nf, okNF := lastInstr(iff.Block().Succs[nfSucc]).(*ssa.Return)
+		if !okNF {
+			gs.why = "the not-found branch does not return at once"
+			return gs
+		}
+		gs.notFound = nf
+		for _, r := range rets {
+			if r != nf {
+				if gs.found != nil {
+					gs.why = "more than one found return"
+					return gs
+				}
+				gs.found = r
+			}
+		}
+		if gs.found == nil {
+			gs.why = "no found return"
+			return gs
+		}
+		gs.idCall, gs.idFn, gs.cond, gs.ordCall, gs.ordFn, gs.helper = hs.idCall, hs.idFn, hs.cond, hs.ordCall, hs.ordFn, h
+		if v0 != nil && hs.value != nil {
+			e.env[v0] = hs.value
+		}
+		if len(gs.found.Results) >= 1 {
+			gs.value = e.eval(gs.found.Results[0])
+		}
+		return gs
+	}
+	gs.why = "does not look the key up with " + shortFn(getID)
 	return gs
 }
 
@@ -158,7 +304,11 @@ func checkC14(p *Program, r *Report) {
 		e := newEval(p)
 		nfOK := len(sh.notFound.Results) == 2 && e.eval(sh.notFound.Results[1]).String() == "false" && e.eval(sh.notFound.Results[0]).String() == "0"
 		fOK := len(sh.found.Results) == 2 && e.eval(sh.found.Results[1]).String() == "true"
-		r.Check(nfOK && fOK && sh.cond == gShape.cond, "(*trie.SlimTrie)."+name, p.Pos(f.Pos()), "returns (0,false) iff GetID(key) == -1, else (v,true); same test as Get",
+		via := ""
+		if sh.helper != nil {
+			via = " (through " + shortFn(sh.helper) + ")"
+		}
+		r.Check(nfOK && fOK && sh.cond == gShape.cond, "(*trie.SlimTrie)."+name, p.Pos(f.Pos()), "returns (0,false) iff GetID(key) == -1, else (v,true); same test as Get"+via,
 			"the found flag differs from Get's: condition "+sh.cond+" vs "+gShape.cond)
 		w := p.Sizes.Sizeof(f.Signature.Results().At(0).Type())
 		getters = append(getters, res{f, sh, w})
@@ -168,17 +318,7 @@ func checkC14(p *Program, r *Report) {
 	r.Rule("C14.layout", "E6+types", "value = little-endian assembly of W bytes at W*ordinal", 4)
 	for _, g := range getters {
 		name := "(*trie.SlimTrie)." + g.f.Name()
-		// ordinal: a trie call (not GetID) taking the GetID result
-		var ordCall *ssa.Call
-		for _, c := range callsIn(g.f) {
-			if call, ok := c.(*ssa.Call); ok && call != g.shape.idCall && calleeOf(call) != nil && trieScope(calleeOf(call)) {
-				for _, a := range call.Call.Args {
-					if a == g.shape.idCall {
-						ordCall = call
-					}
-				}
-			}
-		}
+		ordCall := g.shape.ordCall
 		r.curRule = r.Rules[len(r.Rules)-2]
 		if ordCall == nil {
 			r.Bad(name+" ordinal", p.Pos(g.f.Pos()), "the leaf ordinal is not obtained by a call on the id GetID returned")
@@ -189,12 +329,19 @@ func checkC14(p *Program, r *Report) {
 		r.curRule = r.Rules[len(r.Rules)-1]
 		e := newEval(p)
 		ords := e.inline(ordCall)
+		if g.shape.ordFn != nil && g.shape.ordFn != g.f {
+			// the ordinal is computed inside the helper: evaluate it there
+			ords = newEval(p).inline(ordCall)
+		}
 		if len(ords) == 0 {
 			r.Unk(name+" layout", p.Pos(ordCall.Pos()), "cannot evaluate the ordinal symbolically ("+shortFn(calleeOf(ordCall))+" is not a single-block function)")
 			continue
 		}
 		T := ords[0]
-		val := e.eval(g.shape.found.Results[0])
+		val := g.shape.value
+		if val == nil {
+			val = e.eval(g.shape.found.Results[0])
+		}
 		got := addends(val)
 		want := map[string]int64{}
 		for j := int64(0); j < g.w; j++ {
